@@ -39,4 +39,28 @@ CLAIMS = {
                  "checked, after every raise the target's contents per interval, errors2 and missed values must equal the pre-call values; calls the "
                  "statements require to be refused must raise. Exploration."),
     },
+    "C05": {
+        "technique": "per-call interval-wise addition monitor + partition / summation-order history checks against the exact model of all data",
+        "text": ("Every observed histogram addition / subtraction is checked interval by interval (contents, errors2, missed, bins, adaptive union span); "
+                 "data sets are partitioned into chunks, histogrammed on equal static bins or one adaptive grid and recombined in random order and association "
+                 "(+, +=, sum, collection, dask): result vs exact model of all data, two orders vs each other, operands unchanged; mandated refusals must raise. Exploration."),
+    },
+    "C06": {
+        "technique": "per-call element-wise scaling monitor + algebraic identities (commutation, round trip, normalisation sums) + mandated refusals",
+        "text": ("Every observed *, /, *=, /= by python / numpy scalars is checked element-wise (contents and missed x c, errors2 x c*c, bins and operand untouched, "
+                 "statistics invariant, weight scaled); identities c*h == h*c, (h*c)/c == h, normalize, partial_normalize, collection normalisation; h*h, h/h, c/h, "
+                 "negative factors and arrays must be refused. Exploration."),
+    },
+    "C13": {
+        "technique": "world invariant dtype == frequencies.dtype == errors2.dtype after every public call + dtype rule ledger over histories on all supported dtypes",
+        "text": ("Histories over int16..long double contents with weighted / unweighted fills, mixed-dtype + and -, scalings, normalisation, merges and set_dtype; after every "
+                 "operation the coherence invariant, the operation's dtype rule (integer stays integer, float weights / factors / division promote, numpy promotion for "
+                 "histogram arithmetic), a float64 value shadow (no truncation) and the set_dtype admissibility rule (refusal changes nothing) are checked. Exploration."),
+    },
+    "C14": {
+        "technique": "shadow ledger of every (value, weight) entered, compared with the recorded statistics after every step of random histories",
+        "text": ("In-range data are entered by construction, fill, fill_n chunkings, sums of partial histograms, copies and rescalings; after every step weight, sum, sum2, "
+                 "min, max, mean, variance, std (and the median after unweighted construction) are compared with math.fsum over the ledger; operations that cannot "
+                 "maintain statistics must leave NaN. Exploration."),
+    },
 }
